@@ -417,8 +417,35 @@ def build_hand(case):
 
 def run_hand(case):
     F = build_hand(case)
+    # the first thing ever asked of the object may be a rendering (the harness looks at names and rows only afterwards)
+    first, early = case.get('first'), None
+    if first == 'to_latex':
+        early = F.to_latex()
+    elif first == 'latex-file':
+        buf = io.StringIO()
+        F.to_file(buf, fileformat='latex', export_header=False, export_varnames=False)
+        early = buf.getvalue()
+    elif first == 'opb-names':
+        buf = io.StringIO()
+        F.to_file(buf, fileformat='opb', export_header=False, export_varnames=True)
+        early = buf.getvalue()
     labels = []
     nontrivial = shape_labels(F, labels)
+    if first == 'to_latex':
+        check_latex(early, F, 'to_latex() as the first thing asked of the object', document=False)
+    elif first == 'latex-file':
+        check_latex(early, F, "to_file(fileformat='latex') as the first thing asked of the object", document=True, export_header=None)
+    elif first == 'opb-names':
+        check_opb(early, F, "to_file(fileformat='opb', export_varnames=True) as the first thing asked of the object",
+                  export_header=False, export_varnames=True)
+    if first:
+        labels.append('first-observation:' + first)
+    if any(g[0] == 'block' and 0 in g[1] for g in case.get('groups', [])):
+        labels.append('group-without-variables')
+        gs = case['groups']
+        if any(gs[i][0] == 'block' and 0 in gs[i][1] and gs[i + 1][0] != 'anon' and not (gs[i + 1][0] == 'block' and 0 in gs[i + 1][1])
+               for i in range(len(gs) - 1)):
+            labels.append('named-group-after-empty-group')
     render_everything(F, case, labels)
     return Outcome(labels=labels, nontrivial=nontrivial)
 
@@ -467,6 +494,9 @@ _group = st.one_of(
     st.tuples(st.just('block'), st.lists(st.integers(1, 3), min_size=1, max_size=1), st.sampled_from(_BLOCK1)).map(list),
     st.tuples(st.just('block'), st.lists(st.integers(1, 3), min_size=2, max_size=2), st.sampled_from(_BLOCK2)).map(list),
     st.tuples(st.just('anon'), st.integers(1, 3)).map(list),
+    # groups without variables (a block with a dimension 0, as the edges of an edgeless graph give)
+    st.tuples(st.just('block'), st.sampled_from([[0], [0, 2], [2, 0]]), st.sampled_from(_BLOCK2)).map(
+        lambda g: [g[0], g[1], g[2] if len(g[1]) == 2 else 'x_{{{}}}']),
 )
 
 _nrows = st.one_of(st.integers(0, 6), st.integers(0, 80), st.sampled_from([34, 35, 36, 69, 70, 71, 72, 80]))
@@ -538,6 +568,8 @@ def strat_hand(draw):
         case['header'] = hdr
     if draw(st.integers(0, 3)) == 0:
         case['extra_text'] = draw(st.sampled_from(['Some remark.\n', '\\noindent text with $x_1$\n\n', 'a\n\nb\n']))
+    if draw(st.booleans()):
+        case['first'] = draw(st.sampled_from(['to_latex', 'latex-file', 'opb-names']))
     return case
 
 
@@ -1163,8 +1195,8 @@ def strat_shield_all(draw):
 
 SUBCHECKS = [
     SubCheck('hand', run_hand, strategy=strat_hand, quick=1600, thorough=96000,
-             rule="CNF and OPB objects built by hand: 0-4 variable groups (named singletons, 1- and 2-index blocks with the label shapes of the families, anonymous gaps), literals up to 2 past the declared range, 0..80 rows of width 0..4 (OPB: coefficients -12..12 \\ {0}, five input relations, degrees -5..30, clauses), extra header fields, description, export_header x export_varnames, one named target (path / file object / StringIO / stdout, 13 extensions, sub-directories called d.tex and d.opb, request None/opb/latex/dimacs); every case is rendered by to_opb(), to_latex(), to_file(opb), to_file(latex) and the named target, each read back by the independent readers and compared row by row with list(F) and all_variable_labels(); non-trivial: >=2 rows, >=1 row with a negative literal, and for the OPB class a coefficient >1 or an equality",
-             required_labels=['CNF', 'OPB', 'equality', 'coefficient>1', 'empty-constraint', 'empty-formula', 'page-split',
+             rule="CNF and OPB objects built by hand: 0-4 variable groups (named singletons, 1- and 2-index blocks with the label shapes of the families, blocks without variables, anonymous gaps; in half of the cases a rendering with names is the first thing ever asked of the object and is judged against what the object says afterwards), literals up to 2 past the declared range, 0..80 rows of width 0..4 (OPB: coefficients -12..12 \\ {0}, five input relations, degrees -5..30, clauses), extra header fields, description, export_header x export_varnames, one named target (path / file object / StringIO / stdout, 13 extensions, sub-directories called d.tex and d.opb, request None/opb/latex/dimacs); every case is rendered by to_opb(), to_latex(), to_file(opb), to_file(latex) and the named target, each read back by the independent readers and compared row by row with list(F) and all_variable_labels(); non-trivial: >=2 rows, >=1 row with a negative literal, and for the OPB class a coefficient >1 or an equality",
+             required_labels=['first-observation:to_latex', 'first-observation:latex-file', 'first-observation:opb-names', 'group-without-variables', 'named-group-after-empty-group', 'CNF', 'OPB', 'equality', 'coefficient>1', 'empty-constraint', 'empty-formula', 'page-split',
                               'two-page-splits', 'full-last-page', 'varnames', 'by-extension', 'request-beats-extension',
                               'default-dimacs', 'equality-with-negative-literal', 'negative-degree', 'no-header', 'header',
                               'name-with-sub/superscript', 'name-with-punctuation', 'target-path', 'target-fileobj',
